@@ -517,6 +517,7 @@ def correspond(run: lib.Run):
             f"{len(records)} + {len(dr)} + {len(cr)} valid values")
     groups, records = groups + dg + cg, records + dr + cr
     _state["groups"], _state["records"] = groups, records
+    coremodel.warm_replay(run, groups, "c13")      # every call again on warm caches: pass-through must hold for the k-th call too
     evaluate(run, groups, records, "c13")
     run.log("model evaluated")
     # PassLaws / IdemLaws are theorems of the scalar model (Props/LeafBridge.v: C13_passthrough_from_scalar_model ...);
